@@ -77,6 +77,7 @@ def run(rep, tier):
         else:
             skip_basic_only(rep, c, sfx)
         skipbasic(rep, c, sfx)
+        skipend(rep, c, sfx)
 
 
 # ------------------------------------------------------------------ SNAP
@@ -764,6 +765,43 @@ def skipbasic(rep, c, sfx):
                 ok = True
     if not ok:
         r.violation("range", where(lp), "the scan does not range over self.pos..self.input.len()")
+
+
+def skipend(rep, c, sfx):
+    r = rep.rule("C03.SKIPEND" + sfx, 1,
+                 "skip_until's documented failure outcome is uniform: on every path on which it (or its basic search) "
+                 "returns false, the cursor has been moved to the end of the input - whichever search arm was taken")
+    n = 0
+    for b in c.bodies:
+        if b.get("impl_self") != POSITION and not b["path"].startswith("pest::position::"):
+            continue
+        if not b["name"].startswith("skip_until") or b.get("body") is None or b.get("output") != "bool":
+            continue
+        n += 1
+        key = b["name"]
+        nf = 0
+        bad = None
+        for (ev, out) in exits(PathEnum(b).paths()):
+            v = hirq.path_value(ev)
+            if v is None or hirq.lit_value(peel(v)) is not False:
+                continue
+            nf += 1
+            moved = False
+            for e in ev:
+                if e.kind == "assign" and kind(peel(e.node["l"])) == "Field" and peel(e.node["l"])["name"] == "pos":
+                    rr = peel(e.node["r"])
+                    if kind(rr) == "MethodCall" and rr["m"] == "len":
+                        moved = True
+            if not moved:
+                bad = ev
+        r.instance(key, where(b["body"]), "%d paths return false" % nf)
+        if bad is not None:
+            arms = [str(e.extra) for e in bad if e.kind == "arm"]
+            r.violation(key, where(b["body"]), "a path of %s returns false without moving the cursor to the end of the input "
+                        "(match arm %s): that search arm disagrees with its siblings and with the basic search about where "
+                        "a failed skip leaves the position" % (key, ",".join(arms) or "-"))
+    if n == 0:
+        r.lost("Position::skip_until")
 
 
 def skip_basic_only(rep, c, sfx):
